@@ -124,6 +124,10 @@ fn e6_systems(l: &Log)
     let mut sys = IntoSystem::into_system(uses_local);
     sys.initialize(&mut world);
     push(l, format!("exclusive? {}", sys.is_exclusive()));
+    push(l, format!("has_deferred (Commands param)? {}", sys.has_deferred()));
+    let mut plain = IntoSystem::into_system(count_removed);
+    plain.initialize(&mut world);
+    push(l, format!("has_deferred (no deferred param)? {}", plain.has_deferred()));
     let a = sys.run(10, &mut world);
     push(l, format!("returned {}", a));
     let b = sys.run(20, &mut world);
@@ -131,6 +135,7 @@ fn e6_systems(l: &Log)
     let mut ex = IntoSystem::into_system(exclusive);
     ex.initialize(&mut world);
     push(l, format!("exclusive? {}", ex.is_exclusive()));
+    push(l, format!("has_deferred (exclusive)? {}", ex.has_deferred()));
     world.commands().queue(Say(l.clone(), "queued before exclusive", vec![]));
     ex.run((), &mut world);
     push(l, "after exclusive run");
